@@ -75,6 +75,10 @@ func (dist *GeometricDistribution) ScalarType() ScalarType {
 }
 
 func (dist *GeometricDistribution) LogPdf(r Scalar, x ConstScalar) error {
+  if v := x.GetFloat64(); v < 0.0 {
+    r.SetFloat64(math.Inf(-1))
+    return nil
+  }
   if v := x.GetFloat64(); math.Floor(v) != v {
     return fmt.Errorf("value `%f' is not an integer", v)
   }
